@@ -6,9 +6,11 @@ package main
 // reference semantics in coq/C08) is the reference: a mismatch IS the failing input.
 
 import (
+	"bytes"
 	"crypto/ed25519"
 	"encoding/binary"
 	"fmt"
+	"math/big"
 
 	"github.com/bytom/bytom/protocol/vm"
 	. "verifharness/hlib"
@@ -151,6 +153,206 @@ func (d detRand) Read(p []byte) (int, error) {
 	return len(p), nil
 }
 
+// ---- independent numeric oracle (math/big), written from the documented semantics ----
+
+var (
+	two255 = new(big.Int).Lsh(big.NewInt(1), 255)
+	two256 = new(big.Int).Lsh(big.NewInt(1), 256)
+)
+
+// decodeNum: little-endian, at most 32 bytes, below 2^255.
+func decodeNum(b []byte) (*big.Int, string) {
+	if len(b) > 32 {
+		return nil, "EBadValue"
+	}
+	be := make([]byte, len(b))
+	for i := range b {
+		be[len(b)-1-i] = b[i]
+	}
+	n := new(big.Int).SetBytes(be)
+	if n.Cmp(two255) >= 0 {
+		return nil, "ERange"
+	}
+	return n, ""
+}
+
+// encodeNum: minimal little-endian.
+func encodeNum(n *big.Int) []byte {
+	be := n.Bytes()
+	le := make([]byte, len(be))
+	for i := range be {
+		le[len(be)-1-i] = be[i]
+	}
+	return le
+}
+
+func boolItem(b bool) []byte {
+	if b {
+		return []byte{1}
+	}
+	return []byte{}
+}
+
+func ranged(n *big.Int) ([]byte, string) {
+	if n.Sign() < 0 || n.Cmp(two255) >= 0 {
+		return nil, "ERange"
+	}
+	return encodeNum(n), ""
+}
+
+// numericExpect: expected top of stack or error class of a numeric opcode on the given
+// argument stack (bottom first); ok=false when the opcode is not a numeric one.
+func numericExpect(op byte, args [][]byte) (top []byte, errc string, arity int, ok bool) {
+	switch {
+	case op >= 0x8b && op <= 0x8e, op == 0x91, op == 0x92:
+		arity = 1
+	case op >= 0x93 && op <= 0x99, op >= 0x9c && op <= 0xa4:
+		arity = 2
+	case op == 0xa5:
+		arity = 3
+	default:
+		return nil, "", 0, false
+	}
+	ok = true
+	// operands are consumed top first, each validated when consumed
+	var v []*big.Int
+	for k := 0; k < arity; k++ {
+		if len(args)-1-k < 0 {
+			return nil, "EDataStackUnderflow", arity, true
+		}
+		n, e := decodeNum(args[len(args)-1-k])
+		if e != "" {
+			return nil, e, arity, true
+		}
+		v = append(v, n)
+	}
+	z := new(big.Int)
+	switch op {
+	case 0x8b:
+		top, errc = ranged(z.Add(v[0], big.NewInt(1)))
+	case 0x8c:
+		top, errc = ranged(z.Sub(v[0], big.NewInt(1)))
+	case 0x8d:
+		top, errc = ranged(z.Mul(v[0], big.NewInt(2)))
+	case 0x8e:
+		top, errc = ranged(z.Quo(v[0], big.NewInt(2)))
+	case 0x91:
+		top = boolItem(v[0].Sign() == 0)
+	case 0x92:
+		top = boolItem(v[0].Sign() != 0)
+	}
+	if arity == 2 {
+		y, x := v[0], v[1]
+		switch op {
+		case 0x93:
+			top, errc = ranged(z.Add(x, y))
+		case 0x94:
+			top, errc = ranged(z.Sub(x, y))
+		case 0x95:
+			top, errc = ranged(z.Mul(x, y))
+		case 0x96:
+			if y.Sign() == 0 {
+				errc = "EDivZero"
+			} else {
+				top, errc = ranged(z.Quo(x, y))
+			}
+		case 0x97:
+			if y.Sign() == 0 {
+				errc = "EDivZero"
+			} else {
+				top, errc = ranged(z.Rem(x, y))
+			}
+		case 0x98: // x·2^y mod 2^256, then the range check; y >= 256 gives 0
+			if y.Cmp(big.NewInt(256)) >= 0 {
+				top = []byte{}
+			} else {
+				z.Lsh(x, uint(y.Uint64()))
+				z.Mod(z, two256)
+				top, errc = ranged(z)
+			}
+		case 0x99:
+			if y.Cmp(big.NewInt(256)) >= 0 {
+				top = []byte{}
+			} else {
+				top, errc = ranged(z.Rsh(x, uint(y.Uint64())))
+			}
+		case 0x9c:
+			top = boolItem(x.Cmp(y) == 0)
+		case 0x9d:
+			if x.Cmp(y) != 0 {
+				errc = "EVerifyFailed"
+			}
+		case 0x9e:
+			top = boolItem(x.Cmp(y) != 0)
+		case 0x9f:
+			top = boolItem(x.Cmp(y) < 0)
+		case 0xa0:
+			top = boolItem(x.Cmp(y) > 0)
+		case 0xa1:
+			top = boolItem(x.Cmp(y) <= 0)
+		case 0xa2:
+			top = boolItem(x.Cmp(y) >= 0)
+		case 0xa3:
+			if x.Cmp(y) < 0 {
+				top = encodeNum(x)
+			} else {
+				top = encodeNum(y)
+			}
+		case 0xa4:
+			if x.Cmp(y) > 0 {
+				top = encodeNum(x)
+			} else {
+				top = encodeNum(y)
+			}
+		}
+	}
+	if arity == 3 {
+		mx, mn, x := v[0], v[1], v[2]
+		top = boolItem(mn.Cmp(x) <= 0 && x.Cmp(mx) < 0)
+	}
+	return top, errc, arity, true
+}
+
+// numericOracle compares vm's result of a single numeric instruction with the oracle.
+// Only runs that were not cut short by gas are judged (class=numeric-semantics).
+func numericOracle(cs *vmlib.Case, o *vmlib.Obs) string {
+	if len(cs.Code) != 1 || cs.VMVersion != 1 || o.Err == "ERunLimitExceeded" {
+		return ""
+	}
+	op := cs.Code[0]
+	top, errc, arity, ok := numericExpect(op, cs.Args)
+	if !ok {
+		return ""
+	}
+	if errc != "" {
+		if o.Err != errc {
+			return fmt.Sprintf("op %#02x: expected error %s, vm returned %q", op, errc, o.Err)
+		}
+		return ""
+	}
+	// success: the final stack is args minus the operands plus (for all but NUMEQUALVERIFY) the result
+	want := append([][]byte{}, cs.Args[:len(cs.Args)-arity]...)
+	if op != 0x9d {
+		want = append(want, top)
+	}
+	wantErr := ""
+	if len(want) == 0 || !vm.AsBool(want[len(want)-1]) {
+		wantErr = "EFalseVMResult"
+	}
+	if o.Err != wantErr {
+		return fmt.Sprintf("op %#02x: expected outcome %q, vm returned %q", op, wantErr, o.Err)
+	}
+	if !o.HasStk || len(o.Stack) != len(want) {
+		return fmt.Sprintf("op %#02x: expected %d stack items, vm left %d", op, len(want), len(o.Stack))
+	}
+	for k := range want {
+		if !bytes.Equal(want[k], o.Stack[k]) {
+			return fmt.Sprintf("op %#02x: stack item %d is %x, expected %x", op, k, o.Stack[k], want[k])
+		}
+	}
+	return ""
+}
+
 func progFor(op byte, r *Rng) []byte {
 	p := []byte{op}
 	switch {
@@ -217,7 +419,11 @@ func run(c *Ctx) error {
 	per := c.N(8, 60)
 	for opi := 0; opi < 256; opi++ {
 		op := byte(opi)
-		for k := 0; k < per; k++ {
+		n := per
+		if _, _, _, isNum := numericExpect(op, nil); isNum {
+			n += c.N(10, 40) // numeric opcodes: more boundary operands for the math/big oracle
+		}
+		for k := 0; k < n; k++ {
 			cs := &vmlib.Case{Code: progFor(op, c.Rng), Args: stackFor(op, c.Rng), VMVersion: 1, EntryID: c.Rng.Bytes(32)}
 			cs.Gas = []int64{300, 2000, 5000, 20000, 60000}[c.Rng.Intn(5)]
 			if c.Rng.Chance(5) {
@@ -262,6 +468,11 @@ func run(c *Ctx) error {
 			}
 			if o.Gas < 0 || o.Gas > cs.Gas {
 				c.Stats.Fail(fmt.Sprintf("class=gas-range: gas left %d outside [0,%d]", o.Gas, cs.Gas), desc)
+			}
+			if msg := numericOracle(cs, o); msg != "" {
+				c.Stats.Fail("class=numeric-semantics: "+msg, desc)
+			} else if _, _, _, isNum := numericExpect(op, cs.Args); isNum && len(cs.Code) == 1 {
+				c.Stats.Count("numeric_oracle_checked")
 			}
 			if k == 0 && opi%40 == 7 {
 				c.Stats.Sample(desc)
